@@ -167,6 +167,7 @@ class SurfaceSubdivision(Logger):
             newMeshData.vertices.append(pC)
             half[keyify(A,B)]=C
 
+        new_edges = set()
         bary = dict()
         for iF,F in enumerate(self.mesh.faces):
             pS = sum([self.mesh.vertices[u] for u in F])/3
@@ -186,6 +187,11 @@ class SurfaceSubdivision(Logger):
                 [C, mCA, S, mBC],
             ]:
                 newMeshData.faces.append(new_face)
+            for new_edge in [
+                (A,mAB),(mAB,B),(B,mBC),(mBC,C),(C,mCA),(mCA,A), (mAB,S),(mBC,S),(mCA,S)
+            ]:
+                new_edges.add(keyify(new_edge))
+        newMeshData.edges += list(new_edges)
         self.mesh = newMeshData
 
 @allowed_mesh_types(SurfaceMesh)
